@@ -13,6 +13,11 @@
       the image's seek position is written before every render / cache read, reset to 0
       at the end of every pass; at the very end the source PIL image is sought to 0.
 
+    Line numbers: /repo at c32425a.  [close()] is modelled as repaired by
+    pending_fixes/C11_close_unrendered_images.diff: the iterator records its PIL image when
+    it is constructed (not at the generator's first step), so that close() / __del__ hand it
+    to [_close_image] also when no frame was ever produced.
+
     Frame formatting — [image._format_render(image._render_image(img, alpha, frame=True,
     **style_args), *fmt)] with the image at seek position [k] and rendered size [z] — is the
     [Section] variable [fmt_frame]; [hash] is Python's hash of the rendered size.
@@ -44,7 +49,10 @@ Section ImgIter.
     cache : list (option (Str * Z));        (* (frame, size hash) or (None, None) *)
     pos : Z;                                (* image._seek_position *)
     size : Size;                            (* the image's rendered size *)
-    src_reset : bool                        (* 2203-2204 reached: source PIL image sought to 0 *)
+    src_reset : bool;                       (* 2203-2204 reached: source PIL image sought to 0 *)
+    img_open : bool                         (* ghost: the PIL image the iterator works on (self._img, obtained
+                                               from image._get_image() by __init__) has not yet been handed to
+                                               image._close_image() *)
   }.
 
   Inductive op := Next | Seek (p : Z) | Close | Drop | SetImageSize (z : Size).
@@ -63,23 +71,23 @@ Section ImgIter.
 
   Definition init (repeat : Z) (pos0 : Z) (z : Size) : st :=
     {| ph := P0; n := 0; rep := repeat; loop_no := None; cache := []; pos := pos0;
-       size := z; src_reset := false |}.
+       size := z; src_reset := false; img_open := true |}.
 
   Definition set_ph (s : st) (p : phase) : st :=
     {| ph := p; n := n s; rep := rep s; loop_no := loop_no s; cache := cache s; pos := pos s;
-       size := size s; src_reset := src_reset s |}.
+       size := size s; src_reset := src_reset s; img_open := img_open s |}.
   Definition set_n (s : st) (v : Z) : st :=
     {| ph := ph s; n := v; rep := rep s; loop_no := loop_no s; cache := cache s; pos := pos s;
-       size := size s; src_reset := src_reset s |}.
+       size := size s; src_reset := src_reset s; img_open := img_open s |}.
   Definition set_pos (s : st) (v : Z) : st :=
     {| ph := ph s; n := n s; rep := rep s; loop_no := loop_no s; cache := cache s; pos := v;
-       size := size s; src_reset := src_reset s |}.
+       size := size s; src_reset := src_reset s; img_open := img_open s |}.
   Definition set_cache (s : st) (c : list (option (Str * Z))) : st :=
     {| ph := ph s; n := n s; rep := rep s; loop_no := loop_no s; cache := c; pos := pos s;
-       size := size s; src_reset := src_reset s |}.
+       size := size s; src_reset := src_reset s; img_open := img_open s |}.
   Definition set_size (s : st) (z : Size) : st :=
     {| ph := ph s; n := n s; rep := rep s; loop_no := loop_no s; cache := cache s; pos := pos s;
-       size := z; src_reset := src_reset s |}.
+       size := z; src_reset := src_reset s; img_open := img_open s |}.
 
   Fixpoint upd {A} (k : nat) (v : A) (l : list A) : list A :=
     match l, k with
@@ -95,14 +103,21 @@ Section ImgIter.
     {| ph := ph s; n := 0;
        rep := if (0 <? r)%Z then (r - 1)%Z else r;
        loop_no := if (0 <? r)%Z then Some (r - 1)%Z else loop_no s;
-       cache := cache s; pos := 0; size := size s; src_reset := src_reset s |}.
+       cache := cache s; pos := 0; size := size s; src_reset := src_reset s; img_open := img_open s |}.
 
   (** 2202-2204 and the StopIteration handler of __next__ (2056-2060: close()) *)
   Definition finish (s : st) : st * outcome :=
     ({| ph := PEnd; n := n s; rep := rep s; loop_no := loop_no s; cache := cache s; pos := pos s;
-        size := size s; src_reset := true |}, OStop).
+        size := size s; src_reset := true; img_open := false |}, OStop).
 
-  Definition raise (s : st) : st * outcome := (set_ph s PEnd, ORaise).
+  (** close() (2096-2111): the generator is closed and deleted, [self._img] is handed to
+      [image._close_image]; the image's seek position is left alone *)
+  Definition end_it (s : st) : st :=
+    {| ph := PEnd; n := n s; rep := rep s; loop_no := loop_no s; cache := cache s; pos := pos s;
+       size := size s; src_reset := src_reset s; img_open := false |}.
+
+  (** the renderer's exception leaves the generator; __next__ (2064-2069) calls close() *)
+  Definition raise (s : st) : st * outcome := (end_it s, ORaise).
 
   (** second loop, at the head of the inner [while n < n_frames] with sent = None
       (2184-2200).  [fuel] bounds the number of empty passes (more than one only for a
@@ -162,7 +177,7 @@ Section ImgIter.
         | P0 =>                                                      (* 2151-2159 *)
             let s0 := {| ph := P1; n := 0; rep := rep s; loop_no := Some (rep s);
                          cache := if cached then repeat None N else [];
-                         pos := pos s; size := size s; src_reset := src_reset s |} in
+                         pos := pos s; size := size s; src_reset := src_reset s; img_open := img_open s |} in
             p1_run (fuel_of s0) s0
         | P1 => p1_run (fuel_of s) (set_n s (n s + 1))               (* 2179 with sent = None *)
         | P2 => p2_inner (fuel_of s) (set_n s (n s + 1))             (* 2196 with sent = None *)
@@ -176,7 +191,7 @@ Section ImgIter.
                                                                         the next yield is swallowed *)
              | PEnd => (s, OSeekClosed)                              (* 2138-2139 *)
              end
-    | Close | Drop => (set_ph s PEnd, OClosed)                       (* 2105-2111, no seek reset *)
+    | Close | Drop => (end_it s, OClosed)                            (* 2105-2111, no seek reset *)
     | SetImageSize z => (set_size s z, OSized)
     end.
 
@@ -186,11 +201,12 @@ Section ImgIter.
     | o :: r => let (s1, x) := step s o in let (s2, xs) := run s1 r in (s2, x :: xs)
     end.
 
-  (** what the caller can see after each operation: the outcome, image.tell(), loop_no *)
-  Fixpoint trace (s : st) (ops : list op) : list (outcome * Z * option Z) :=
+  (** what can be seen after each operation: the outcome, image.tell(), loop_no, and whether
+      the iterator's PIL image is still to be closed *)
+  Fixpoint trace (s : st) (ops : list op) : list (outcome * Z * option Z * bool) :=
     match ops with
     | [] => []
-    | o :: r => let (s1, x) := step s o in (x, pos s1, loop_no s1) :: trace s1 r
+    | o :: r => let (s1, x) := step s o in (x, pos s1, loop_no s1, img_open s1) :: trace s1 r
     end.
 End ImgIter.
 
